@@ -225,6 +225,12 @@ func (dbc *DatabaseContext) UpdatePrincipal(ctx context.Context, updates *auth.P
 				base.InfofCtx(ctx, base.KeyAuth, "Error releasing unused sequence %d after CAS retry for principal %s: %v", nextSeq, base.UD(princ.Name()), err)
 			}
 		} else {
+			// For timeout errors the write may or may not have succeeded, so the sequence cannot be released as unused
+			if err != nil && !base.IsTimeoutError(err) {
+				if releaseErr := dbc.sequences.releaseSequence(ctx, nextSeq); releaseErr != nil {
+					base.InfofCtx(ctx, base.KeyAuth, "Error releasing unused sequence %d after failed update of principal %s: %v", nextSeq, base.UD(princ.Name()), releaseErr)
+				}
+			}
 			return replaced, princ, err
 		}
 	}
